@@ -51,6 +51,14 @@ def c02(tier):
         with_model(run, "w-n%d" % n, sc)
     run.submit(apalache_job, "Ind_Sma")
     run.submit(apalache_job, "Ind_Ext")
+    # larger windows on recorded integer streams (adversarial shapes), definition on the ghost window (P3)
+    rnd = random.Random(202 + run.seed)
+    big = []
+    for k in kinds:
+        for n in ((8, 16, 33) if tier == "quick" else (8, 13, 16, 33, 64, 100)):
+            big.append({"cfg": {"k": k, "n": n}, "unit": 1, "mode": "window", "eps": [1, 1000000000], "float": "f64",
+                        "xs": shapes(rnd, n, -40, 40, 300 if tier == "quick" else 3000), "k": 1})
+    run.submit(p3_stream_job, "w-big", "C02", big)
     # decimal unit: same definitions on inputs k/10 (not exactly representable): the statement allows rounding noise
     # proportional to the magnitude; sqrt-type outputs amplify 1e-16 to 1e-8, hence 1e-6 here (C16's figure)
     run.submit(p1_job, "w-dec", "MC_Def", {"prop": "C02", "cfgs": cfgs(kinds, [2, 3]), "alphabet": [-7, 0, 3, 12], "unit": 10, "maxlen": 5 if tier == "quick" else 7, "extras": True,
@@ -73,7 +81,12 @@ def c05(tier):
             run.submit(p1_job, "rsi-n%d-a%d" % (n, alpha[0]), "MC_Def", sc)
             with_model(run, "rsi-n%d-a%d" % (n, alpha[0]), sc)
     run.submit(apalache_job, "Ind_MyRsi")
-    return run.finish(RULE_DEF)
+    rnd = random.Random(505 + run.seed)
+    big = [{"cfg": {"k": k, "n": n}, "unit": 1, "mode": "window", "eps": [1, 1000000000], "float": "f64",
+            "xs": shapes(rnd, n, -40, 40, 300 if tier == "quick" else 3000), "k": 1}
+           for k in kinds for n in ((7, 14, 33) if tier == "quick" else (7, 14, 16, 33, 64))]
+    run.submit(p3_stream_job, "rsi-big", "C05", big)
+    return run.finish(RULE_DEF + "; plus recorded streams at larger N validated on the ghost window (P3)")
 
 @check("C06")
 def c06(tier):
@@ -88,7 +101,12 @@ def c06(tier):
         sc = {"prop": "C06", "cfgs": cfgs(kinds, [n]), "alphabet": alpha, "unit": 1, "maxlen": L}
         run.submit(p1_job, "trend-n%d-a%d" % (n, alpha[0]), "MC_Def", sc)
         with_model(run, "trend-n%d-a%d" % (n, alpha[0]), sc)
-    return run.finish(RULE_DEF)
+    rnd = random.Random(606 + run.seed)
+    big = [{"cfg": {"k": k, "n": n}, "unit": 1, "mode": "window", "eps": [1, 1000000000], "float": "f64",
+            "xs": shapes(rnd, n, -40 if k != "CenterOfGravity" else 1, 40, 250 if tier == "quick" else 2000), "k": 1}
+           for k in kinds for n in ((9, 16, 20) if tier == "quick" else (9, 16, 20, 48))]
+    run.submit(p3_stream_job, "trend-big", "C06", big)
+    return run.finish(RULE_DEF + "; plus recorded streams at larger N validated on the ghost window (P3)")
 
 @check("C13")
 def c13(tier):
@@ -140,6 +158,19 @@ def c11(tier):
         run.submit(p1_job, "ehlers-n%d" % n, "MC_Def", sc)
         if n <= 5:
             with_model(run, "ehlers-n%d" % n, dict(sc, maxlen=min(L, 7)))
+    # the suite's own window lengths on recorded streams, validated step by step against the machine (= the difference
+    # equations, model-checked against the batch definitions above by MC_Model)
+    rnd = random.Random(1111 + run.seed)
+    big = []
+    for n in ((16, 20, 48) if tier == "quick" else (9, 16, 20, 33, 48, 100)):
+        for cfg in [{"k": "SuperSmoother", "n": n}, {"k": "RoofingFilter", "n": n, "m": 10}, {"k": "LaguerreRSI", "n": n},
+                    {"k": "CyberCycle", "n": n}, {"k": "TrendFlex", "n": n}, {"k": "ReFlex", "n": n}]:
+            loose = cfg["k"] in ("SuperSmoother", "RoofingFilter")      # the two accepted spellings of the angle differ by 1e-6
+            big.append({"cfg": cfg, "unit": 10, "mode": "machine", "eps": [1, 100000] if loose else [1, 100000000], "float": "f64",
+                        "xs": walk(rnd, 400 if tier == "quick" else 2000, 100, 1000, 60), "k": 1 if tier == "quick" else 4})
+    big.append({"cfg": {"k": "LaguerreFilter", "g": [4, 5]}, "unit": 10, "mode": "machine", "eps": [1, 100000000], "float": "f64",
+                "xs": walk(rnd, 150, 100, 1000, 60), "k": 1})
+    run.submit(p3_stream_job, "ehlers-big", "C11", big)
     run.submit(p1_job, "laguerre", "MC_Def", {"prop": "C11", "cfgs": lag, "alphabet": [-2, 0, 1, 3], "unit": 1, "maxlen": 6 if tier == "quick" else 8})
     return run.finish(RULE_DEF)
 
@@ -329,6 +360,19 @@ def c07(tier):
         pos = [{"k": "Drawdown"}, {"k": "CenterOfGravity", "n": n}, {"k": "Min", "n": n}, {"k": "Max", "n": n}, sma(n), {"k": "Alma", "n": n}, E]
         run.submit(p1_job, "rng-pos-n%d" % n, "MC_Obs", {"prop": "C07", "cfgs": pos, "alphabet": [1, 3, 10, 11][:len(A)], "unit": 10, "maxlen": L},
                nontrivial_keys=None, view_label=label)
+    rnd = random.Random(707 + run.seed)
+    adv = []
+    for n in ((2, 5, 16) if tier == "quick" else (2, 3, 5, 8, 16, 33, 64)):
+        for cfg in bounded(max(n, 3)) + [{"k": "CenterOfGravity", "n": n}, {"k": "Drawdown"}]:
+            if cfg["k"] == "PolarizedFractalEfficiency":
+                continue      # its range clause is the known finding KF1; attributed only where the specification's own value is compared (P1)
+            posonly = cfg["k"] in ("CenterOfGravity", "Drawdown")
+            for unit, lo, hi in ((10, 1 if posonly else -999, 999), (1000, 10 if posonly else -9999, 9999)):
+                adv.append({"cfg": cfg, "unit": unit, "mode": "range", "eps": [1, 1], "float": "f64",
+                            "xs": shapes(rnd, cfg.get("n", n), lo, hi, 400 if tier == "quick" else 4000), "k": 1})
+    third = len(adv) // 3 + 1
+    for i in range(3):
+        run.submit(p3_stream_job, "rng-adv-%d" % i, "C07", adv[i * third:(i + 1) * third])
     return run.finish("every input sequence over the alphabet up to maxlen for every bounded view; non-trivial = states in which a bounded "
                       "view reports a value (the range predicate is evaluated there)")
 
@@ -501,6 +545,29 @@ def walk(rnd, n, lo, hi, maxstep, grain=1):
         x = min(hi, max(lo, x))
         out.append(x * grain)
     return out
+
+def shapes(rnd, n, lo, hi, length):
+    """adversarial stream shapes for window length n: volatile then flat, steps, monotone runs, linear windows, alternation, ties"""
+    out = []
+    def rv(): return rnd.randint(lo, hi)
+    while len(out) < length:
+        c = rnd.randint(0, 6)
+        if c == 0:
+            out += [rv() for _ in range(rnd.randint(2, n + 3))] + [rv()] * rnd.randint(n + 1, 2 * n + 2)
+        elif c == 1:
+            a, b = rv(), rv(); out += [a] * rnd.randint(1, n + 1) + [b] * rnd.randint(1, n + 1)
+        elif c == 2:
+            a = rv(); d = rnd.choice([-1, 1]) * rnd.randint(1, max(1, (hi - lo) // (4 * n + 4)))
+            out += [min(hi, max(lo, a + d * i)) for i in range(rnd.randint(n, 2 * n + 2))]
+        elif c == 3:
+            a, b = rv(), rv(); out += [a if i % 2 else b for i in range(rnd.randint(2, 2 * n + 2))]
+        elif c == 4:
+            out += sorted(rv() for _ in range(rnd.randint(2, n + 2)))[::rnd.choice([-1, 1])]
+        elif c == 5:
+            v = rv(); out += [v, v, rv(), v, v]
+        else:
+            out += [rv() for _ in range(rnd.randint(1, 2 * n))]
+    return out[:length]
 
 def flat_after_volatile(rnd, n, lo, hi):
     pre = [rnd.randint(lo, hi) for _ in range(rnd.randint(2, 3 * n + 2))]
